@@ -111,6 +111,6 @@ def judge(c, ir, mr):
     if "self_match" in ir and ir["self_match"] != "EXACT":
         return {"kind": "a signature written from the packet does not match it exactly", "why": str(ir)}
     if isinstance(mr, list) and ir["texts"] != mr[:2]:
-        return {"kind": "printed text differs from the verified printer", "why": "impl %s model %s" % ([bytes.fromhex(x).decode() for x in ir["texts"]], [bytes.fromhex(x).decode() for x in mr[:2]]),
+        return {"kind": "printed text differs from the verified printer (but parses back correctly)", "no_failing_input": True, "why": "impl %s model %s" % ([bytes.fromhex(x).decode() for x in ir["texts"]], [bytes.fromhex(x).decode() for x in mr[:2]]),
                 "judged_by": "C18_layout / C18_quirks (the model printer is proved to be inverted by the parser)"}
     return None
